@@ -59,11 +59,22 @@ def build(kind, log):
 
 
 IN_REPO = re.compile(r"(/repo/src/[A-Za-z0-9_/]+\.rs):(\d+)")
+# inlined frames carry the path relative to the crate root ("src/utils/unzip.rs:725"); the harness' own files
+# and the standard library never live under a src/<dir>/ that exists in /repo, main.rs/lib.rs are ambiguous and skipped
+REL_REPO = re.compile(r"[( ](src/[A-Za-z0-9_/]+\.rs):(\d+)")
 
 
 def first_repo_frame(text):
     m = IN_REPO.search(text)
-    return (m.group(1).replace("/repo/", ""), m.group(2)) if m else None
+    if m:
+        return (m.group(1).replace("/repo/", ""), m.group(2))
+    for m in REL_REPO.finditer(text):
+        p = m.group(1)
+        if p in ("src/main.rs", "src/lib.rs"):
+            continue
+        if os.path.exists(os.path.join("/repo", p)) and not os.path.exists(os.path.join(HARNESS, p)):
+            return (p, m.group(2))
+    return None
 
 
 def classify(kind, text):
@@ -88,7 +99,7 @@ def classify(kind, text):
     elif kind == "valgrind":
         for blk in re.split(r"(?===\d+== (?:Invalid|Conditional jump|Use of uninitialised|Syscall param))", text):
             if re.match(r"==\d+== (Invalid|Conditional jump|Use of uninitialised|Syscall param)", blk):
-                head = blk.split("\n", 1)[0][:160]
+                head = re.sub(r"^==\d+==\s*", "", blk.split("\n", 1)[0])[:160]
                 res.append((first_repo_frame(blk), head, blk[:1500]))
     return res
 
@@ -96,6 +107,9 @@ def classify(kind, text):
 def run_phase(ph, pid, tier, seed, tmpdir, log):
     kind = ph["kind"]
     secs = ph.get("secs", 60)
+    secs = max(1, int(secs * float(os.environ.get("VERIF_DEV_SECS_SCALE", "1") or 1)))
+    if os.environ.get("VERIF_DEV_ONLY_PHASE") and os.environ["VERIF_DEV_ONLY_PHASE"] != ph["kind"]:
+        return {"summary": {"build": ph["kind"], "executions": 0, "reports": 0, "reports_in_repo": 0, "notes": ["skipped (VERIF_DEV_ONLY_PHASE)"]}, "inconclusive": 0, "notes": []}
     shards = ph.get("shards", NCPU)
     args = list(ph.get("args", []))
     notes, violations, vclasses = [], [], {}
@@ -132,7 +146,7 @@ def run_phase(ph, pid, tier, seed, tmpdir, log):
             base = [os.path.join(BUILD, "plain", "release", "vmon")]
             args = args + [f"adlt_bin={exe}"]
         else:
-            base = ["valgrind", "--error-exitcode=99", "-q", "--num-callers=30", exe]
+            base = ["valgrind", "--error-exitcode=99", "-q", "--num-callers=30", "--fullpath-after=", exe]
         cwd = tmpdir
     if ph.get("needs_bin"):
         args = args + [f"adlt_bin={os.path.join(BUILD, 'adlt-bin', 'release', 'adlt')}"]
@@ -157,7 +171,8 @@ def run_phase(ph, pid, tier, seed, tmpdir, log):
         for fr, head, blk in reports:
             if fr:
                 summary["reports_in_repo"] += 1
-                cls = f"{kind}:{head.split(':', 2)[-1].strip()[:60]}@{fr[0]}"
+                what = re.sub(r"0x[0-9a-fA-F]+|\d+", "#", head.split(':', 2)[-1].strip())[:60]
+                cls = f"{kind}:{what}@{fr[0]}"
                 vclasses[cls] = vclasses.get(cls, 0) + 1
                 if len(violations) < 6:
                     violations.append({"class": cls, "detail": f"{kind} report with a frame in {fr[0]}:{fr[1]}: {head}", "replay": {"kind": kind, "shard": i, "seed": seed, "report": blk}})
